@@ -1,7 +1,7 @@
 (** Dispatch2.v — entry points of the models added after Dispatch.v (DER/token keys, hashes, key blinding, ...).
     [dispatch2] is what the OCaml runner calls; unknown names fall through to [dispatch]. *)
 From Coq Require Import Strings.String.
-From PatVerif Require Import Base.GoSem Model.Dispatch Model.TokenKey Model.Codecs Model.Derive Model.Ed25519 Model.TokenVerify Model.Ecdsa.
+From PatVerif Require Import Base.GoSem Model.Dispatch Model.TokenKey Model.Codecs Model.Derive Model.Ed25519 Model.TokenVerify Model.Ecdsa Model.BatchIssuer.
 Open Scope N_scope.
 
 Definition out_z (z : Z) : list (list byte) :=
@@ -100,9 +100,31 @@ Definition dispatch_ecdsa (name : list byte) (a : list (list byte)) : option (li
     Some (out_entropy (sign_entropy false (script_of a)) ++ out_entropy (sign_entropy true (script_of a)))
   else None.
 
+(** batch_shape: k | (type kid) x k | per request: type keyid (flag||resp) x k.
+    Answer: decode status of the model's own output, then per request 00/01 ++ u16 length, then the total length. *)
+Fixpoint chunk (n : nat) (fuel : nat) (l : list (list byte)) : list (list (list byte)) :=
+  match fuel with O => [] | S f => match l with [] => [] | _ => firstn n l :: chunk n f (skipn n l) end end.
+Definition dispatch_batch (name : list byte) (a : list (list byte)) : option (list (list byte)) :=
+  if is name "batch_shape" then
+    let k := N.to_nat (narg a 0) in
+    let cfg := firstn (2 * k) (skipn 1 a) in
+    let reqs := chunk (2 + k) (length a) (skipn (1 + 2 * k) a) in
+    let table (j idx : nat) : option (list byte) :=
+      match nth (2 + j) (nth idx reqs []) [] with x :: r => if byte_eqb x x01 then Some r else None | [] => None end in
+    let iss := map (fun j => {| i_type := be_dec_h (nth (2 * j) cfg []); i_kid := be_dec_h (nth (2 * j + 1) cfg []);
+                                i_eval := fun _ b => table j (N.to_nat (be_dec_h b)) |}) (seq 0 k) in
+    let items := map (fun p => (be_dec_h (nth 0 (snd p) []), {| q_keyid := be_dec_h (nth 1 (snd p) []); q_blinded := be_enc 2 (N.of_nat (fst p)) |}))
+                     (combine (seq 0 (length reqs)) reqs) in
+    let out := evaluate_batch iss items in
+    Some ((match dec_resps out with Some l => if Nat.eqb (length l) (length items) then st_ok else st_none | None => st_none end)
+          :: map (fun it => let r := eval_one iss it in (if Nat.eqb (length r) 0 then x00 else x01) :: be_enc 2 (N.of_nat (length r))) items
+          ++ [nat8 (length out)])
+  else None.
+
 Definition dispatch2 (name : list byte) (a : list (list byte)) : list (list byte) :=
   match dispatch_tokenkey name a with Some r => r | None =>
   match dispatch_derive name a with Some r => r | None =>
   match dispatch_ed name a with Some r => r | None =>
   match dispatch_verify name a with Some r => r | None =>
-  match dispatch_ecdsa name a with Some r => r | None => dispatch name a end end end end end.
+  match dispatch_ecdsa name a with Some r => r | None =>
+  match dispatch_batch name a with Some r => r | None => dispatch name a end end end end end end.
